@@ -3264,6 +3264,10 @@ impl Zeroconf {
                 if qtype == RRType::ANY && msg.num_authorities() > 0 {
                     if let Some(probe) = dns_registry.probing.get_mut(q_name) {
                         probe.tiebreaking(&msg, q_name);
+
+                        // If we lost, the probe was postponed by one second: make sure
+                        // the run loop wakes up to send it then.
+                        self.timers.push(Reverse(probe.next_send));
                     }
                 }
 
